@@ -567,6 +567,9 @@ func (c *Client) toOffline() {
 	select {
 	case _, ok := <-c.writeSem:
 		if !ok {
+			// The next ReadSlices must get to connect for ErrClosed
+			// instead of the leftovers in the read buffer.
+			c.readConn, c.bufr, c.peek, c.bigMessage = nil, nil, nil, nil
 			return // ErrClosed
 		}
 		c.readConn.Close()
@@ -574,6 +577,7 @@ func (c *Client) toOffline() {
 		c.readConn.Close() // interrupt write
 		_, ok := <-c.writeSem
 		if !ok {
+			c.readConn, c.bufr, c.peek, c.bigMessage = nil, nil, nil, nil
 			return // ErrClosed
 		}
 	}
